@@ -631,3 +631,217 @@ Proof.
     destruct (Z.ltb_spec max_bit_len (bitlen (rd h d * rd h d2))); [reflexivity|lia].
   - apply (checkBI_ok h); [apply nodiv|heap_simp; reflexivity|lia].
 Qed.
+
+(* ---- constructors and int64 conversions ---- *)
+Definition prec_out (k : Z) (v : Z) : Z * Z := if 36 <? k then (3, 0) else (0, v).
+Lemma NewBigDecFromBigIntWithPrec_spec : forall k,
+  un_nonmut_spec (fun i => NewBigDecFromBigIntWithPrec (L i) k) (fun a => prec_out k (a * 10 ^ (36 - k))).
+Proof.
+  intros k h d Hd. unfold NewBigDecFromBigIntWithPrec, precisionMultiplier, prec_out.
+  destruct (36 <? k); ssteps; [reflexivity|]. split; [lia|]. cbn [obs_of]. heap_simp. reflexivity.
+Qed.
+Lemma NewBigDecFromBigIntMutWithPrec_spec : forall k,
+  un_mut_spec (fun i => NewBigDecFromBigIntMutWithPrec i k) (fun a => prec_out k (a * 10 ^ (36 - k))).
+Proof.
+  intros k h d Hd. unfold NewBigDecFromBigIntMutWithPrec, precisionMultiplier, prec_out.
+  destruct (36 <? k); ssteps; [reflexivity|]. split; [reflexivity|]. cbn [obs_of]. heap_simp. reflexivity.
+Qed.
+Lemma NewBigDecWithPrec_spec : forall i k h,
+  spec (NewBigDecWithPrec i k) h (fun h' r => (next h <= r)%nat /\ obs_of (Ok h' r) = prec_out k (i * 10 ^ (36 - k)))
+                                 (fun e h' => obs_of (Panic e h') = prec_out k (i * 10 ^ (36 - k))).
+Proof.
+  intros i k h. unfold NewBigDecWithPrec, precisionMultiplier, prec_out.
+  destruct (36 <? k); ssteps; [reflexivity|]. split; [lia|]. cbn [obs_of]. heap_simp. reflexivity.
+Qed.
+Definition fits_i64 (v : Z) : bool := is_int64 v.
+Lemma TruncateInt64_spec : un_nonmut_spec TruncateInt64 (fun a => chk_out fits_i64 (bd_truncate_int a)).
+Proof.
+  intros h d Hd. unfold TruncateInt64, chopPrecisionAndTruncate, assertInt64, chk_out, fits_i64, bd_truncate_int. ssteps.
+  sdiv; [intros; discriminate|intros _]. ssteps.
+  destruct (is_int64 (Z.quot (rd h d) P36)); ssteps.
+  - split; [lia|]. cbn [obs_of]. heap_simp. reflexivity.
+  - reflexivity.
+Qed.
+Lemma RoundInt64_spec : un_nonmut_spec RoundInt64 (fun a => chk_out fits_i64 (bd_round_int a)).
+Proof.
+  intros h d Hd. unfold RoundInt64, chopPrecisionAndRoundNonMutative, assertInt64, chk_out, fits_i64, bd_round_int. ssteps.
+  scall (chopPrecisionAndRoundP_ok P36 five36); [discriminate|reflexivity|heap_simp; lia|].
+  intros h1 r [-> V]. heap_simp_in V. ssteps. rewrite V.
+  destruct (is_int64 (chop_round P36 (rd h d))); ssteps.
+  - split; [lia|]. cbn [obs_of]. rewrite V. reflexivity.
+  - reflexivity.
+Qed.
+Lemma BI_ToDec_spec : un_nonmut_spec BI_ToDec (fun a => ok_out (bd_from_int a)).
+Proof.
+  intros h d Hd. unfold BI_ToDec, D_copy, NewBigDecFromBigIntWithPrec, bd_from_int. rewrite precisionMultiplier_0. ssteps.
+  split; [lia|]. unfold ok_out. cbn [obs_of]. heap_simp. reflexivity.
+Qed.
+
+(* ---- PowerInteger / Power: square and multiply, with the aliased call d.MulMut(d) the code itself makes ---- *)
+Definition alias_spec (m : nat -> nat -> M nat) (f : Z -> Z -> Z) (chk : Z -> bool) (dv : bool) : Prop :=
+  forall h d, (d < next h)%nat ->
+  spec (m d d) h (fun h' r => r = d /\ obs_of (Ok h' r) = expected f chk dv (rd h d) (rd h d))
+                 (fun e h' => obs_of (Panic e h') = expected f chk dv (rd h d) (rd h d)).
+
+(* value level: the loop of PowerIntegerMut / PowerMut with the range assertion of every multiplication *)
+Fixpoint power_loop_v (mul : Z -> Z -> Z) (fits : Z -> bool) (fuel : nat) (d tmp i : Z) : option (Z * Z) :=
+  match fuel with
+  | O => None
+  | S f =>
+      if 1 <? i then
+        match (if Z.odd i then (if fits (mul tmp d) then Some (mul tmp d) else None) else Some tmp) with
+        | None => None
+        | Some tmp' => if fits (mul d d) then power_loop_v mul fits f (mul d d) tmp' (Z.quot i 2) else None
+        end
+      else Some (d, tmp)
+  end.
+
+Lemma expected_inv_ok : forall f chk a b v, (0, v) = expected f chk false a b -> chk (f a b) = true /\ v = f a b.
+Proof. intros f chk a b v H. unfold expected in H. cbn in H. destruct (chk (f a b)); inversion H; auto. Qed.
+Lemma expected_inv_err : forall f chk a b e, (perr_code e, 0) = expected f chk false a b -> chk (f a b) = false.
+Proof.
+  intros f chk a b e H. unfold expected in H. cbn in H. destruct (chk (f a b)); [|reflexivity].
+  inversion H. destruct e; discriminate.
+Qed.
+
+Section PowerLoop.
+Variables (mulmut : nat -> nat -> M nat) (mul : Z -> Z -> Z) (fits : Z -> bool).
+Hypothesis Hm : mut_spec mulmut mul fits false.
+Hypothesis Ha : alias_spec mulmut mul fits false.
+Hypothesis Hp : forall n S d d2, W n S d -> pres n S (mulmut d d2) (W n S).
+
+(* one multiplication x.MulMut(y) with its frame: only x changes *)
+Lemma mulmut_step : forall h x y, (x < next h)%nat -> (y < next h)%nat ->
+  spec (mulmut x y) h
+    (fun h' r => r = x /\ fits (mul (rd h x) (rd h y)) = true /\ rd h' x = mul (rd h x) (rd h y) /\
+                 (next h <= next h')%nat /\ forall l, (l < next h)%nat -> l <> x -> rd h' l = rd h l)
+    (fun e h' => fits (mul (rd h x) (rd h y)) = false).
+Proof.
+  intros h x y Hx Hy.
+  assert (P : pres (next h) (eq x) (mulmut x y) (W (next h) (eq x))) by (apply Hp; left; reflexivity).
+  destruct (Nat.eq_dec x y) as [<-|Ne].
+  - pose proof (spec_pres _ _ h _ _ _ _ _ P (le_n _) (Ha h x Hx)) as Sp.
+    eapply spec_weaken; [exact Sp| |]; cbn beta.
+    + intros h' r ((-> & O) & (N & F) & _). cbn [obs_of] in O. apply expected_inv_ok in O. destruct O as [C V].
+      repeat split; auto; intros l Hl Hne; apply F; auto.
+    + intros e h' (O & _). cbn [obs_of] in O. apply expected_inv_err in O. exact O.
+  - pose proof (spec_pres _ _ h _ _ _ _ _ P (le_n _) (Hm h x y Hx Hy Ne)) as Sp.
+    eapply spec_weaken; [exact Sp| |]; cbn beta.
+    + intros h' r ((-> & O) & (N & F) & _). cbn [obs_of] in O. apply expected_inv_ok in O. destruct O as [C V].
+      repeat split; auto; intros l Hl Hne; apply F; auto.
+    + intros e h' (O & _). cbn [obs_of] in O. apply expected_inv_err in O. exact O.
+Qed.
+
+Lemma power_loop_ok : forall fuel h d tmp i, (d < next h)%nat -> (tmp < next h)%nat -> d <> tmp ->
+  spec (power_loop mulmut fuel d tmp i) h
+    (fun h' r => r = d /\ power_loop_v mul fits fuel (rd h d) (rd h tmp) i = Some (rd h' d, rd h' tmp) /\
+                 (next h <= next h')%nat /\ forall l, (l < next h)%nat -> l <> d -> l <> tmp -> rd h' l = rd h l)
+    (fun e h' => power_loop_v mul fits fuel (rd h d) (rd h tmp) i = None).
+Proof.
+  induction fuel as [|f IH]; intros h d tmp i Hd Ht Hne; cbn [power_loop power_loop_v].
+  - apply spec_panic. reflexivity.
+  - destruct (1 <? i); [|apply spec_ret; repeat split; auto].
+    apply spec_bind. destruct (Z.odd i).
+    + apply spec_bind. eapply spec_weaken; [apply (mulmut_step h tmp d Ht Hd)| |]; cbn beta.
+      * intros h1 r (-> & C & V & N & F). apply spec_ret. rewrite C.
+        assert (Ed : rd h1 d = rd h d) by (apply F; auto).
+        apply spec_bind. eapply spec_weaken; [apply (mulmut_step h1 d d); lia| |]; cbn beta.
+        -- intros h2 r2 (-> & C2 & V2 & N2 & F2). rewrite Ed in C2, V2. rewrite C2.
+           assert (Et : rd h2 tmp = mul (rd h tmp) (rd h d)) by (rewrite F2 by (auto; lia); exact V).
+           eapply spec_weaken; [apply (IH h2 d tmp (Z.quot i 2)); lia| |]; cbn beta.
+           ++ intros h3 r3 (-> & L & N3 & F3). rewrite V2, Et in L. repeat split; auto; [lia|].
+              intros l Hl H1 H2. rewrite F3 by (auto; lia). rewrite F2 by (auto; lia). apply F; auto.
+           ++ intros e h3 L. rewrite V2, Et in L. exact L.
+        -- intros e h2 C2. rewrite Ed in C2. rewrite C2. reflexivity.
+      * intros e h1 C. rewrite C. reflexivity.
+    + apply spec_ret.
+      apply spec_bind. eapply spec_weaken; [apply (mulmut_step h d d); lia| |]; cbn beta.
+      * intros h2 r2 (-> & C2 & V2 & N2 & F2). rewrite C2.
+        assert (Et : rd h2 tmp = rd h tmp) by (apply F2; auto).
+        eapply spec_weaken; [apply (IH h2 d tmp (Z.quot i 2)); lia| |]; cbn beta.
+        -- intros h3 r3 (-> & L & N3 & F3). rewrite V2, Et in L. repeat split; auto; [lia|].
+           intros l Hl H1 H2. rewrite F3 by (auto; lia). apply F2; auto.
+        -- intros e h3 L. rewrite V2, Et in L. exact L.
+      * intros e h2 C2. rewrite C2. reflexivity.
+Qed.
+End PowerLoop.
+
+Lemma MulMut_alias : alias_spec MulMut bd_mul bd_fits false.
+Proof.
+  intros h d Hd. unfold MulMut. ssteps.
+  scall (chopPrecisionAndRoundP_ok P36 five36); [discriminate|reflexivity|heap_simp; lia|].
+  intros h1 r [-> V]. heap_simp_in V.
+  apply finish_bd; [apply nodiv|exact V].
+Qed.
+Lemma D_MulMut_alias : alias_spec D_MulMut d_mul d_fits false.
+Proof.
+  intros h d Hd. unfold D_MulMut. ssteps.
+  scall (chopPrecisionAndRoundP_ok P18 five18); [discriminate|reflexivity|heap_simp; lia|].
+  intros h1 r [-> V]. heap_simp_in V. ssteps.
+  apply finish_d; [apply nodiv|heap_simp; exact V].
+Qed.
+
+Definition chk_opt (fits : Z -> bool) (v : Z) : option Z := if fits v then Some v else None.
+(* BigDec.PowerIntegerMut / PowerInteger at the value level (None: some multiplication exceeded the bound) *)
+Definition bd_power_v (d p : Z) : option Z :=
+  if p =? 0 then Some P36 else if p =? 1 then Some d else if p =? 2 then chk_opt bd_fits (bd_mul d d)
+  else match power_loop_v bd_mul bd_fits 65 d P36 p with
+       | Some (d', tmp) => chk_opt bd_fits (bd_mul d' tmp)
+       | None => None
+       end.
+Definition d_power_v (d p : Z) : option Z :=
+  if p =? 0 then Some P18
+  else match power_loop_v d_mul d_fits 65 d P18 p with
+       | Some (d', tmp) => chk_opt d_fits (d_mul d' tmp)
+       | None => None
+       end.
+
+Lemma PowerIntegerMut_spec : forall k h d, (d < next h)%nat ->
+  spec (PowerIntegerMut d k) h
+    (fun h' r => bd_power_v (rd h d) k = Some (rd h' r) /\ (k <> 0 -> r = d))
+    (fun e h' => bd_power_v (rd h d) k = None).
+Proof.
+  intros k h d Hd. unfold PowerIntegerMut, bd_power_v, OneBigDec.
+  destruct (Z.eqb_spec k 0); [ssteps; split; [reflexivity|contradiction]|].
+  destruct (k =? 1); [ssteps; auto|].
+  destruct (k =? 2).
+  - eapply spec_weaken; [apply (mulmut_step MulMut bd_mul bd_fits MulMut_spec MulMut_alias MulMut_pres h d d Hd Hd)| |]; cbn beta.
+    + intros h' r (-> & C & V & _). unfold chk_opt. rewrite C, V. auto.
+    + intros e h' C. unfold chk_opt. rewrite C. reflexivity.
+  - ssteps. apply spec_bind.
+    eapply spec_weaken; [apply (power_loop_ok MulMut bd_mul bd_fits MulMut_spec MulMut_alias MulMut_pres 65 (halloc h P36) d (next h) k); heap_simp; lia| |]; cbn beta.
+    + intros h1 r (-> & L & N & F). heap_simp_in L. rewrite L.
+      eapply spec_weaken; [apply (mulmut_step MulMut bd_mul bd_fits MulMut_spec MulMut_alias MulMut_pres h1 d (next h)); heap_simp_in N; lia| |]; cbn beta.
+      * intros h2 r2 (-> & C & V & _). unfold chk_opt. rewrite C, V. auto.
+      * intros e h2 C. unfold chk_opt. rewrite C. reflexivity.
+    + intros e h1 L. heap_simp_in L. rewrite L. reflexivity.
+Qed.
+Lemma PowerInteger_spec : forall k h d, (d < next h)%nat ->
+  spec (PowerInteger d k) h (fun h' r => bd_power_v (rd h d) k = Some (rd h' r)) (fun e h' => bd_power_v (rd h d) k = None).
+Proof.
+  intros k h d Hd. unfold PowerInteger, Clone. ssteps.
+  eapply spec_weaken; [apply PowerIntegerMut_spec; heap_simp; lia| |]; cbn beta.
+  - intros h' r [V R]. heap_simp_in V. exact V.
+  - intros e h' V. heap_simp_in V. exact V.
+Qed.
+Lemma D_PowerMut_spec : forall k h d, (d < next h)%nat ->
+  spec (D_PowerMut d k) h (fun h' r => d_power_v (rd h d) k = Some (rd h' r) /\ r = d) (fun e h' => d_power_v (rd h d) k = None).
+Proof.
+  intros k h d Hd. unfold D_PowerMut, d_power_v.
+  destruct (k =? 0); [ssteps; split; [heap_simp; reflexivity|reflexivity]|].
+  ssteps. apply spec_bind.
+  eapply spec_weaken; [apply (power_loop_ok D_MulMut d_mul d_fits D_MulMut_spec D_MulMut_alias D_MulMut_pres 65 (halloc h P18) d (next h) k); heap_simp; lia| |]; cbn beta.
+  - intros h1 r (-> & L & N & F). heap_simp_in L. rewrite L.
+    eapply spec_weaken; [apply (mulmut_step D_MulMut d_mul d_fits D_MulMut_spec D_MulMut_alias D_MulMut_pres h1 d (next h)); heap_simp_in N; lia| |]; cbn beta.
+    + intros h2 r2 (-> & C & V & _). unfold chk_opt. rewrite C, V. auto.
+    + intros e h2 C. unfold chk_opt. rewrite C. reflexivity.
+  - intros e h1 L. heap_simp_in L. rewrite L. reflexivity.
+Qed.
+Lemma D_Power_spec : forall k h d, (d < next h)%nat ->
+  spec (D_Power d k) h (fun h' r => d_power_v (rd h d) k = Some (rd h' r)) (fun e h' => d_power_v (rd h d) k = None).
+Proof.
+  intros k h d Hd. unfold D_Power, D_copy. ssteps.
+  eapply spec_weaken; [apply D_PowerMut_spec; heap_simp; lia| |]; cbn beta.
+  - intros h' r [V R]. heap_simp_in V. exact V.
+  - intros e h' V. heap_simp_in V. exact V.
+Qed.
